@@ -12,6 +12,20 @@ from obl_fixed import fm_field, seq_eq, zb
 from obl_phonetic import eval_clauses
 
 
+def plain_config(v):
+    """The Config a context holds, whatever it is wrapped in (a reference, a Cow, a Box)."""
+    for _ in range(4):
+        if isinstance(v, Ref):
+            v = v.get()
+        elif isinstance(v, Box):
+            v = v.cell[0]
+        elif isinstance(v, Agg) and v.kind in ("adt:Cow", "adt:Rc", "adt:Arc") and v.fields:
+            v = v.fields[0]
+        else:
+            break
+    return v
+
+
 def mk_context(prog, method, cfg, data):
     cell = Agg("adt:RefCell", None, [Box(method), 0])
     return struct_of(prog, "RitiContext", {"method": cell, "config": cfg, "data": data})
@@ -104,7 +118,7 @@ def make_context(shape):
         cell = ctx.fields[prog.structs["RitiContext"].index("method")]
         cur = cell.fields[0].cell[0] if isinstance(cell.fields[0], Box) else None
         if ev == "update":
-            cfg_now = ctx.fields[prog.structs["RitiContext"].index("config")]
+            cfg_now = plain_config(ctx.fields[prog.structs["RitiContext"].index("config")])
             order = prog.structs["Config"]
             same = []
             for o in OPTS:
@@ -283,7 +297,7 @@ def make_history(shape):
         clauses.append(("later_events_see_the_new_configuration", conj(ok_cfg)))
         clauses.append(("event_result_is_the_methods_result", conj(ok_ret)))
         clauses.append(("events_use_the_contexts_data", conj(ok_data)))
-        cfg_now = ctx.fields[prog.structs["RitiContext"].index("config")]
+        cfg_now = plain_config(ctx.fields[prog.structs["RitiContext"].index("config")])
         clauses.append(("configuration_is_replaced", cfg_eq(cfg_now, c["cfgs"][-1])))
         # a method object is never told about events once it has been replaced
         clauses.append(("current_method_is_last", cur is key_calls[-1]["tok"] if key_calls else False))
